@@ -24,7 +24,7 @@ for pid in props:
             "engine": "nechk",
             "level_claimed": {"category": "other", "text": text, "design_ref": ref},
             "level_note": note,
-            "technique": tech,
+            "technique": tech + " + module call-graph reachability of package-level mutable state from the anchored functions (rule R-" + pid + ".G)",
         })
 na = [{"property_id": pid, "reason": NOT_APPLICABLE[pid]} for pid in props if pid not in CLAIMED]
 for pid in props:
